@@ -26,7 +26,7 @@ RULE = ('files built through the public API to conform to every rule by construc
         '(id, severity, message class), and C19.Rel is evaluated on the implementation\'s own answer. non-trivial = a validation with a parsed '
         'description; distinct = distinct op text.')
 TRUSTED = ['the getters themselves (id, name, type, createdAt, dataType, dimensionCount, dataExtent, dimensions, ticks, labels, size, unit, '
-           'samplingInterval, offset, position(s), units, references, data, linkType, valueCount, findSources, findSections, util::getDimensionUnit): '
+           'samplingInterval, offset, columnIndex, position(s), units, references, data, linkType, valueCount, findSources, findSections): '
            'the model starts from what they answer, as printed by the harness op vl_desc',
            'lean/NixModel/Units.lean as a model of util::isSIUnit / isCompoundSIUnit / isScalable (tied to the library by C18 and by every unit the generator uses here)',
            'harness raw-HDF5 breach injection (H5Ldelete, attribute / dataset rewrite on the file nix has open)']
